@@ -249,6 +249,15 @@ example : applyBinary (.pint 9223372036854775808 : Prim α) .add (.integer 1) = 
 example : applyBinary (.integer (-1) : Prim α) .add (.pint 9223372036854775808) = .ok (.integer 9223372036854775807) := by
   simp [applyBinary, applyBinInteger, ofI64, checkedI64, inI64, i64Min, i64Max]
 
+private theorem opFailure_bin_eq {c d : OpErr} (h : opFailure TErr.binOpError c = .binOpError d) : c = d := by
+  cases c <;> simp_all [opFailure]
+private theorem opFailure_un_eq {c d : OpErr} (h : opFailure TErr.unOpError c = .unOpError d) : c = d := by
+  cases c <;> simp_all [opFailure]
+private theorem opFailure_un_ne_bin (c d : OpErr) : opFailure TErr.unOpError c ≠ .binOpError d := by
+  cases c <;> simp [opFailure]
+private theorem opFailure_bin_ne_un (c d : OpErr) : opFailure TErr.binOpError c ≠ .unOpError d := by
+  cases c <;> simp [opFailure]
+
 /-- `as_primitive` on operator expressions never panics -/
 theorem eval_binary_never_panics (e : PExp α) : e.eval ≠ .error (.binOpError .panic) := by
   induction e with
@@ -257,7 +266,9 @@ theorem eval_binary_never_panics (e : PExp α) : e.eval ≠ .error (.binOpError 
     simp only [PExp.eval]
     split
     · rename_i err h; intro hc; simp at hc; subst hc; exact ih h
-    · split <;> simp
+    · split
+      · simp
+      · intro h; simp at h; exact opFailure_un_ne_bin _ _ h
   | bin op a b iha ihb =>
     simp only [PExp.eval]
     split
@@ -266,7 +277,7 @@ theorem eval_binary_never_panics (e : PExp α) : e.eval ≠ .error (.binOpError 
       · rename_i err h; intro hc; simp at hc; subst hc; exact ihb h
       · split
         · simp
-        · rename_i c hc; intro h; simp at h; subst h; exact no_panic_applyBinary _ _ _ hc
+        · rename_i c hc; intro h; simp at h; have := opFailure_bin_eq h; subst this; exact no_panic_applyBinary _ _ _ hc
 
 theorem eval_unary_never_panics (e : PExp α) : e.eval ≠ .error (.unOpError .panic) := by
   induction e with
@@ -277,14 +288,16 @@ theorem eval_unary_never_panics (e : PExp α) : e.eval ≠ .error (.unOpError .p
     · rename_i err h; intro hc; simp at hc; subst hc; exact ih h
     · split
       · simp
-      · rename_i c hc; intro h; simp at h; subst h; exact no_panic_applyUnary _ _ hc
+      · rename_i c hc; intro h; simp at h; have := opFailure_un_eq h; subst this; exact no_panic_applyUnary _ _ hc
   | bin op a b iha ihb =>
     simp only [PExp.eval]
     split
     · rename_i err h; intro hc; simp at hc; subst hc; exact iha h
     · split
       · rename_i err h; intro hc; simp at hc; subst hc; exact ihb h
-      · split <;> simp
+      · split
+        · simp
+        · intro h; simp at h; exact opFailure_bin_ne_un _ _ h
 
 end generic
 
